@@ -17,7 +17,12 @@ from vf.sandbox import pmap
 REL = Fr(1, 10 ** 12)
 
 
+_BIG = Fr(10) ** 280
+
+
 def close(x, exact, rel=REL):
+    if exact != 0 and not (1 / _BIG < abs(exact) < _BIG):
+        return True          # the true result is (nearly) outside the double range: not judged
     if not isinstance(x, float):
         x = float(x)
     if math.isnan(x) or math.isinf(x):
@@ -126,8 +131,17 @@ def case_random_block(case):
         A, B, C = (r.choice(si.ALL_SYSTEMS) for _ in range(3))
         if r.random() < 0.15:
             B = A
-        d3 = tuple(r.randint(-4, 4) for _ in range(3))
+        d3 = tuple(r.randint(-4, 4) for _ in range(3)) if r.random() < 0.85 else tuple(r.randint(-9, 9) for _ in range(3))
         val = r.choice([1.0, -1.0, r.uniform(-10, 10), 10 ** r.uniform(-8, 8) * r.choice([-1, 1])])
+        if max(abs(e_) for e_ in d3) > 4:
+            # high exponents: keep the case only if every factor and every intermediate value involved is well inside the
+            # double range (a factor that is not representable cannot be applied, whatever the implementation)
+            fs_ = [si.factor(A, B, d3), si.factor(A, C, d3), si.factor(B, C, d3), si.factor(B, A, d3)]
+            if any(not (1 / _BIG < abs(f_ * m_) < _BIG) for f_ in fs_ for m_ in (1, Fr(val), Fr(1, 10 ** 4), Fr(10 ** 4))) \
+                    or not (1 / _BIG < abs(Fr(val) * fs_[0] * fs_[2]) < _BIG):
+                stats["high_exponent_cases_skipped_out_of_range"] = stats.get("high_exponent_cases_skipped_out_of_range", 0) + 1
+                continue
+            stats["high_exponent_cases"] = stats.get("high_exponent_cases", 0) + 1
         keys.append((A, B, d3))
         try:
             q = U.UnitValue(val, U.Units(mk_sys(U, A), mk_dim(U, d3)))
